@@ -1,11 +1,12 @@
 #!/bin/sh
 # builds /verif/build/ocaml/driver from the extracted model and the glue
 set -e
-B=/verif/build/ocaml
+R=${VERIF_ROOT:-$(cd "$(dirname "$0")/.." && pwd)}
+B=$R/build/ocaml
 mkdir -p $B
 cd $B
 rm -f Extract.vo model.ml model.mli
-coqc -Q /verif/coq/theories JsonSyntax /verif/coq/theories/Extract/Extract.v -o $B/Extract.vo > $B/extract.log 2>&1 || { cat $B/extract.log; exit 1; }
-cp /verif/ocaml/*.ml $B/
+coqc -Q $R/coq/theories JsonSyntax $R/coq/theories/Extract/Extract.v -o $B/Extract.vo > $B/extract.log 2>&1 || { cat $B/extract.log; exit 1; }
+cp $R/ocaml/*.ml $B/
 ORDER=$(ocamlfind ocamldep -sort model.ml glue.ml fam_*.ml driver.ml)
 ocamlfind ocamlopt -w -a -package unix -linkpkg model.mli $ORDER -o driver
